@@ -531,7 +531,7 @@ func names(raw []byte) Result {
 			curLen += 1 + l
 			inName = true
 			if curLen+1 > 255 {
-				return unspec("name-longer-than-255")
+				return dflt(KNames, "name-longer-than-255") // RFC 1035 §3.1: not a name, the option is malformed
 			}
 			pos += 1 + l
 		}
